@@ -366,6 +366,10 @@ def caption_sets(thorough):
     yield "span with its own text-align and a layout", {"langs": {"en-US": [(S, 2 * S, [
         "plain ", ("L", L4), ("s", True, {"text-align": "center", "italics": True}), "centred",
         ("s", False, {"text-align": "center", "italics": True}), ("L", None), " end"], None, None)]}}
+    # a style pair built through the API: the opening node placed, the closing node not; a style DFXP renders to nothing
+    yield "bold pair, layout on the opening node only", {"langs": {"en-US": [(S, 2 * S, [
+        "plain ", ("L", L4), ("s", True, {"bold": True}), "heavy", ("L", None), ("s", False, {"bold": True}), " end"], None, None),
+        (3 * S, 4 * S, [("L", L1), ("s", True, {"italics": True}), "slanted", ("L", None), ("s", False, {"italics": True})], None, None)]}}
     # alignments with one component only, and the logical start / end
     yield "partial alignments", {"langs": {"en-US": [
         (S, 2 * S, ["top only"], (10, 10, 80, 20, (None, "TOP")), None), (3 * S, 4 * S, ["centre only"], (10, 40, 80, 20, (None, "CENTER")), None),
